@@ -146,3 +146,10 @@ Example C01_nonvacuous :
   | _ => False
   end.
 Proof. vm_compute. reflexivity. Qed.
+
+(* the one place where what comes back is not literally what was buffered: query_ancount travels through a 32-bit member of the signature and
+   comes back through the uint16_t of GenericQueryResponse (Block.narrow16 in exp_qr). On every count an application can hand the exporter -
+   a uint16_t - that is the identity *)
+Theorem C01_ancount_narrowing_is_identity : forall n, (n < 65536)%N -> narrow16 (Some (VN n)) = Some (VN n).
+Proof. intros n H. unfold narrow16. rewrite N.mod_small by exact H. reflexivity. Qed.
+Print Assumptions C01_ancount_narrowing_is_identity.
